@@ -143,6 +143,32 @@ def transfer_shape(rep, prog, rule):
         cuts = [pc.lo for pc, m, iv in res[f.id] if pc.degenerate() and 0.0 < pc.lo < 1.0]
         if not cuts:
             rep.ok(rule, key, f.loc, "single piece", nontrivial=False)
+        # ... and at interior points: the documented backward curve is the exact inverse of the
+        # forward one (x^2.2 and x^(1/2.2); the two sRGB branches), so g(f(x)) differs from x only
+        # by the f32 rounding of the constants (~1e-7). A rounded exponent such as 0.4545 moves
+        # g(f(x)) by x*|ln x|*1e-4 (3.7e-5 at x = 1/e): more than two 16-bit steps, i.e. whole
+        # levels of the 16-bit backward table
+        for x in (0.2, 0.37, 0.5, 0.7):
+            k2 = "%s|inverse-at-%g" % (f.name.rsplit("::", 1)[-1], x)
+            fw = [v for pc, m, v in mono.analyse(prog, f, x, x) if v is not None]
+            if not fw:
+                rep.unk(rule, k2, f.loc, "f(%g) not evaluated" % x)
+                continue
+            y = 0.5 * (min(v[0] for v in fw) + max(v[1] for v in fw))
+            back = [v for pc, m, v in mono.analyse(prog, g, y, y) if v is not None]
+            if not back:
+                rep.unk(rule, k2, g.loc, "g(%g) not evaluated" % y)
+                continue
+            lo, hi = min(v[0] for v in back), max(v[1] for v in back)
+            if max(abs(lo - x), abs(hi - x)) <= 1e-5:
+                rep.ok(rule, k2, f.loc, "g(f(%g)) = %.8g" % (x, lo))
+            elif lo > x + 2 * LSB16 or hi < x - 2 * LSB16:
+                rep.bad(rule, k2, g.loc, "%s does not undo %s: g(f(%g)) lies in [%.8g, %.8g], more than "
+                        "two 16-bit steps from %g, so the backward tables with a 16-bit destination are "
+                        "whole levels away from the documented inverse curve (a rounded constant in "
+                        "one of the two functions)" % (g.name, f.name, x, lo, hi, x))
+            else:
+                rep.unk(rule, k2, f.loc, "g(f(%g)) in [%.8g, %.8g]" % (x, lo, hi))
         for b in cuts:
             iv = [iv for pc, m, iv in res[f.id] if pc.degenerate() and pc.lo == b][0]
             if iv is None:
